@@ -185,13 +185,42 @@ func DependsOn(v ssa.Value, pred func(ssa.Value) bool) bool {
 		switch y := x.(type) {
 		case *ssa.Alloc:
 			for _, ref := range *y.Referrers() {
-				if st, ok := ref.(*ssa.Store); ok && st.Addr == y {
-					if walk(st.Val) {
+				switch st := ref.(type) {
+				case *ssa.Store:
+					if st.Addr == y && walk(st.Val) {
 						return true
+					}
+				case *ssa.IndexAddr:
+					// stores into elements of a local array (e.g. the argument array of a variadic call)
+					for _, r2 := range *st.Referrers() {
+						if s2, ok := r2.(*ssa.Store); ok && s2.Addr == ssa.Value(st) && walk(s2.Val) {
+							return true
+						}
 					}
 				}
 			}
 			return false
+		case *ssa.FieldAddr:
+			// a field of a local struct: only what is stored into that same field
+			if al, ok := y.X.(*ssa.Alloc); ok {
+				for _, ref := range *al.Referrers() {
+					if fa, ok := ref.(*ssa.FieldAddr); ok && fa.Field == y.Field {
+						for _, r2 := range *fa.Referrers() {
+							if s2, ok := r2.(*ssa.Store); ok && s2.Addr == ssa.Value(fa) && walk(s2.Val) {
+								return true
+							}
+						}
+					}
+				}
+				return false
+			}
+		case *ssa.Phi:
+			// the branch conditions that select among the incoming edges (short-circuit && / ||)
+			for _, pred := range y.Block().Preds {
+				if c := IfCond(pred); c != nil && walk(c) {
+					return true
+				}
+			}
 		}
 		if ins, ok := x.(ssa.Instruction); ok {
 			var ops []*ssa.Value
